@@ -349,5 +349,7 @@ def run(chk, mod_gen):
     chk.bounds.update({'block_lines': 2, 'matrix': '3x3 and 3x1 (the instantiations the readers use)'})
     block_readers(chk, mod, lib)
     scale_selection(chk, mod, lib)
+    from . import C13d
+    C13d.run(chk, mod, lib)
     from . import C13c
     C13c.run(chk, mod_gen)
